@@ -23,7 +23,7 @@ pub const INFO: PropInfo = PropInfo {
         "all atomics involved are SeqCst, so interleaving at the six scheduling points is complete for this protocol (DESIGN.md 2.5)",
         "the oracle names no deadline while sessions are still running; every session ends by itself (client closes, or keep-alive timeout)",
     ],
-    expected_probes: &["c18.signal_during_first_poll", "c18.signal_between_checked_and_published", "c18.sessions_in_flight_at_signal", "c18.late_connect_refused", "c18.second_signal", "c18.slow_handler_finished_after_signal", "c18.spinner_rule_engaged", "c18.signal_with_no_sessions", "c18.session_ended_by_panic"],
+    expected_probes: &["c18.signal_during_first_poll", "c18.signal_between_checked_and_published", "c18.sessions_in_flight_at_signal", "c18.late_connect_refused", "c18.second_signal", "c18.slow_handler_finished_after_signal", "c18.spinner_rule_engaged", "c18.signal_with_no_sessions", "c18.session_ended_by_panic", "c18.sse_stream_in_flight"],
 };
 
 #[derive(Clone, Debug, Serialize, Deserialize)]
@@ -39,6 +39,8 @@ pub enum ClientKind {
     Two { gap_ms: u64, delay_ms: u64 },
     /// a request whose handler panics after `delay_ms` (user code may panic; the session task then ends by unwinding)
     Panic { delay_ms: u64 },
+    /// a server-sent event stream of `n` messages, `gap_ms` apart: the session is in flight until the stream ends
+    Sse { n: u64, gap_ms: u64 },
 }
 #[derive(Clone, Debug, Serialize, Deserialize)]
 pub struct ClientPlan {
@@ -69,7 +71,8 @@ pub fn generate(_cfg: &RunCfg, _out: &mut Outcome) -> Scenario {
                 2 => sigint_ms + t::pick(&[0u64, 1, 5, 100]),
                 _ => t::pick(&[1u64, 2, 3, 50, 500]),
             };
-            let kind = match t::weighted(&[4, 3, 2, 2, 2, 2]) {
+            let kind = match t::weighted(&[4, 3, 2, 2, 2, 2, 2]) {
+                6 => ClientKind::Sse { n: t::range(0, 5), gap_ms: t::pick(&[0u64, 1, 200, 4000]) },
                 5 => ClientKind::Panic { delay_ms: t::pick(&[0u64, 1, 50, 2000]) },
                 0 => ClientKind::Slow { delay_ms: t::pick(&[0u64, 1, 50, 2000, 20_000]) },
                 1 => ClientKind::Fast,
@@ -188,6 +191,21 @@ fn execute(sc: &Scenario, out: &mut Outcome) {
             }
         }),
         "/fast".GET(|| async { "fast" }),
+        "/sse".GET(|req: &Request| {
+            let n = req.headers.get("x-n").and_then(|v| v.parse::<u64>().ok()).unwrap_or(0);
+            let gap = req.headers.get("x-delay-ms").and_then(|v| v.parse::<u64>().ok()).unwrap_or(0);
+            async move {
+                let ds: ohkami::sse::DataStream<String> = ohkami::sse::DataStream::new(move |mut s| async move {
+                    for i in 0..n {
+                        if gap > 0 {
+                            tokio::time::sleep(std::time::Duration::from_millis(gap)).await;
+                        }
+                        s.send(format!("message {i}"));
+                    }
+                });
+                ds
+            }
+        }),
         "/panic".GET(|req: &Request| {
             let d = req.headers.get("x-delay-ms").and_then(|v| v.parse::<u64>().ok()).unwrap_or(0);
             async move {
@@ -265,6 +283,22 @@ fn execute(sc: &Scenario, out: &mut Outcome) {
                         ob.expected_responses = 1;
                     }
                     let r = c.recv(false, DEFAULT_TIMEOUT).await;
+                    o.borrow_mut().results.push(r);
+                }
+                ClientKind::Sse { n, gap_ms } => {
+                    c.send(format!("GET /sse HTTP/1.1\r\nHost: s\r\nx-n: {n}\r\nx-delay-ms: {gap_ms}\r\n\r\n").as_bytes(), 0);
+                    {
+                        let mut ob = o.borrow_mut();
+                        ob.sent_complete_request = true;
+                        ob.expected_responses = 1;
+                    }
+                    let r = c.recv(false, DEFAULT_TIMEOUT).await;
+                    if let Ok(resp) = &r {
+                        // the whole stream must have arrived: in-flight sessions are served to the end
+                        if resp.body_text().matches("data: message").count() as u64 != n {
+                            o.borrow_mut().expected_responses = 99;
+                        }
+                    }
                     o.borrow_mut().results.push(r);
                 }
                 ClientKind::Panic { delay_ms } => {
@@ -423,6 +457,9 @@ fn execute(sc: &Scenario, out: &mut Outcome) {
                 return;
             }
             out.probe("c18.sessions_in_flight_at_signal");
+            if matches!(plan.kind, ClientKind::Sse { .. }) {
+                out.probe("c18.sse_stream_in_flight");
+            }
             if let ClientKind::Slow { delay_ms } = plan.kind {
                 if delay_ms >= 2000 {
                     out.probe("c18.slow_handler_finished_after_signal");
